@@ -550,12 +550,12 @@ func (s *socket) Close(discard bool) {
 		return
 	}
 
-	if s.ReadyState() != "open" {
+	// test and set in one step: a close completing in between must not be undone
+	if !s.readyState.CompareAndSwap("open", "closing") {
 		return
 	}
 	verifhook.At("socket.close.tested", s.id)
-
-	s.SetReadyState("closing")
+	socket_log.Debug("readyState updated from %s to %s", "open", "closing")
 
 	if length := s.writeBuffer.Len(); length > 0 {
 		socket_log.Debug("there are %d remaining packets in the buffer, waiting for the 'drain' event", length)
